@@ -11,7 +11,8 @@
 (*                    19 failed with another error, 18 panic]              *)
 (* act = [op, p, kind, code, res]                                          *)
 (*   op = "Msg": peer p sends kind "G" (getdata for the tx) or "R" (reject *)
-(*        of the tx, reject class code) or "X" (reject of another hash);   *)
+(*        of the tx, reject class code) or "X" (reject of another hash) or *)
+(*        "Y" (getdata for another hash);                                  *)
 (*   op = "Delay": the reject timeout passes; "Finish": the broadcast      *)
 (*        timeout passes.                                                  *)
 (* classes: 1 Invalid, 2 InsufficientFee, 3 Mempool, 4 Confirmed, 5 Unknown*)
@@ -27,22 +28,49 @@
 (***************************************************************************)
 EXTENDS Integers, Sequences, FiniteSets
 
-AbsInit == [R |-> {}, J |-> {}, Inv |-> {}, any |-> {}]
+AbsInit == [R |-> {}, J |-> {}, Inv |-> {}, any |-> {},
+            G |-> {}, open |-> {}, shut |-> {}, hard |-> {}, soft |-> {}]
+
+\* classes that mean "the peer refuses the transaction" beyond doubt
+\* (Mempool = it already has it, Confirmed = it is in the chain: not refusals)
+HardCodes == {1, 2, 5}
 
 AbsNext(a, act, o2) ==
-  IF act.op # "Msg" \/ act.kind = "X" THEN a
-  ELSE [R   |-> IF act.kind = "G" /\ act.p \notin a.any THEN a.R \cup {act.p} ELSE a.R,
-        J   |-> IF act.kind = "R" THEN a.J \cup {act.p} ELSE a.J,
-        Inv |-> IF act.kind = "R" /\ act.code = 1 THEN a.Inv \cup {act.p} ELSE a.Inv,
-        any |-> a.any \cup {act.p}]
+  IF act.op = "Delay"
+  THEN [a EXCEPT !.shut = @ \cup a.open, !.open = {}]
+  ELSE IF act.op # "Msg" \/ act.kind \in {"X", "Y"} THEN a
+  ELSE LET p == act.p
+           inTime == act.kind = "R" /\ p \in a.open
+       IN  [R    |-> IF act.kind = "G" /\ p \notin a.any THEN a.R \cup {p} ELSE a.R,
+            J    |-> IF act.kind = "R" THEN a.J \cup {p} ELSE a.J,
+            Inv  |-> IF act.kind = "R" /\ act.code = 1 THEN a.Inv \cup {p} ELSE a.Inv,
+            any  |-> a.any \cup {p},
+            \* second reading, for the opposite direction (see Viol):
+            G    |-> IF act.kind = "G" THEN a.G \cup {p} ELSE a.G,
+            open |-> IF act.kind = "G" /\ p \notin a.shut THEN a.open \cup {p} ELSE a.open,
+            shut |-> a.shut,
+            hard |-> IF inTime /\ act.code \in HardCodes THEN a.hard \cup {p} ELSE a.hard,
+            soft |-> IF inTime /\ act.code \notin HardCodes THEN a.soft \cup {p} ELSE a.soft]
 
 FailureJustified(a, thr) ==
   \/ a.R \subseteq a.J
   \/ Cardinality(a.Inv) * 100 >= thr * Cardinality(a.R)
 
+\* "a rejected transaction is never rebroadcast", end to end: the verdict of
+\* sendTransaction is what Broadcaster.Broadcast returns (neutrino.go:980), and
+\* nil makes the transaction enter the rebroadcast set.  Reported only when NO
+\* reading makes the transaction anything but rejected: at least one peer
+\* requested it, and EVERY peer that requested it (at any time) answered,
+\* after its request and before the reject timeout passed, with rejects of
+\* refusing classes only (Invalid, InsufficientFee, Unknown).
+RejectedBeyondDoubt(a) ==
+  a.G # {} /\ \A p \in a.G : p \in a.hard /\ p \notin a.soft
+
 Viol(a, o, act, a2, o2) ==
-  IF o.verdict = 0 /\ o2.verdict >= 10 /\ ~FailureJustified(a2, o2.thr)
-  THEN {"FailOnlyIfAllRejectedOrThreshold"} ELSE {}
+  (IF o.verdict = 0 /\ o2.verdict >= 10 /\ ~FailureJustified(a2, o2.thr)
+   THEN {"FailOnlyIfAllRejectedOrThreshold"} ELSE {})
+  \cup (IF o.verdict = 0 /\ o2.verdict = 1 /\ RejectedBeyondDoubt(a2)
+        THEN {"RejectedByEveryReplierNotAccepted"} ELSE {})
 
 EndViol(a, o) == {}
 =============================================================================
